@@ -44,7 +44,7 @@ CHECKS = {
          "Random maps of 0-8 keys over the conventional key alphabet to arbitrary byte strings (quotes, backquotes, newlines, invalid UTF-8); nil/empty maps; non-ASCII keys; maps filled after Tag was called.",
          TB, "5 C17"),
  "C19": ("exploration", "runtime monitor: import declarations and doc comment groups of the parsed output over the complete cgo combination matrix",
-         "All 148,800 combinations of {Qual C, Anon C before/after preambles} x subsets/orders of 7 preamble kinds (one repeats another, one is the empty string) x 10 other-import shapes (incl. paths sorting before \"C\") x prefix x 5 hint kinds naming \"C\", formatted and NoFormat — enumerated completely in both tiers.",
+         "All 148,800 combinations of {Qual C, Anon C before/after preambles} x subsets/orders of 7 preamble kinds (one repeats another, one is the empty string) x 10 other-import shapes (incl. paths sorting before \"C\") x prefix x 5 hint kinds naming \"C\", formatted, NoFormat and with the references to C rendered as a fragment first — enumerated completely in both tiers.",
          TB, "5 C19"),
  "C20": ("exploration", "runtime monitor: offline checker over recorded clone/append histories against a list model (live and snapshot views admitted)",
          "Random histories over a tree of cloned Statement handles (incl. clones of still-empty originals) with capacity-aware appends; after every step every handle is rendered (Render and inside a File) and tokenised; an unmodified clone must equal its original at every step (2,500 / 30,000 histories; the thorough tier runs under the race detector); 25 fixed non-expression originals (case clauses, comments, tags, Dicts, Line) whose clones must render identically and extend like the original.",
@@ -59,7 +59,7 @@ CHECKS = {
          "Comment injection at every between-items and end-of-item position of Block/Defs/Struct/Interface/case bodies/File of real and generated programs (22 text shapes); file-level scenarios: headers x package comments (incl. empty entries) x canonical paths; raw comment forms, comments leading their statement with Line(), Commentf operands changed after the call; code tokens compared on the formatted and on the NoFormat rendering.",
          TB + " Text containment is judged on the NoFormat rendering (gofmt rewrites doc comments itself).", "5 C15"),
  "C18": ("exploration", "runtime monitor: import spec and qualifier of rendered files vs. the package clause parsed from GOROOT/src/<path>; the gennames tool of the tree is run and its table checked the same way",
-         "Every importable std package directory (297 on this toolchain) alone, with prefix, under ImportAlias(last element) and ImportAlias(arbitrary), after a same-named foreign package; every ordered pair/group sharing a declared name or last path element; all at once in two orders; gennames run offline, every table entry checked, and the cases repeated with ImportNames(table). Enumerated completely in both tiers (2,342 cases), each case produced up to seven ways (fresh, second render, with an unreferenced cgo preamble, after RenderWithFile, File named like the package, alias after a name hint, alias twice).",
+         "Every importable std package directory (297 on this toolchain) alone, with prefix, under ImportAlias(last element) and ImportAlias(arbitrary), after a same-named foreign package; every ordered pair/group sharing a declared name or last path element; all at once in two orders; gennames run offline, every table entry checked, and the cases repeated with ImportNames(table). Enumerated completely in both tiers (2,342 cases), each case produced up to eight ways (fresh, second render, with an unreferenced cgo preamble, after RenderWithFile, File named like the package, alias after a name hint, alias twice, dot-imported and rendered twice).",
          TB + " GOROOT/src of the installed toolchain is the ground truth.", "5 C18"),
  "C02": ("exploration", "runtime monitor: twin builds (formatted vs NoFormat) compared through go/format, go/parser on every output, per-case recover; random compositions over the API table by reflection, and damaged real programs",
          "Random compositions over every construct (valid and nonsensical) under random File settings, one third grammar-biased; formatted output must equal gofmt(raw twin), errors iff gofmt rejects, nothing written on error, no panic; fragments through Statement/Group Render/RenderWithFile/GoString; recovered contract panics before judged renders; recovered contract panics and renders whose writer fails before judged renders; NoFormat flipped between renders of the same Files; real programs with one damaged list.",
@@ -68,7 +68,7 @@ CHECKS = {
          "400/3,000 jobs (import scenarios, random compositions, map-rich recipes, corpus programs) in 3/8 permutations, build-then-render and re-render passes, 3/8 concurrent rounds on 16 goroutines under the race detector, 6/12 fresh processes running the whole list in their own order, 40/400 jobs alone in a fresh process; 600/8,000 sharing sequences (shared statements, a shared signature continued per File, a shared argument slice, a shared name table that must stay unmodified), concurrent Save.",
          TB + " The race detector reports only races that are executed; interleavings are sampled.", "5 C09"),
  "C10": ("fault_enumeration", "runtime monitor: instrumented io.Writer (calls, bytes, programmable full/partial failure), probe nodes that fail mid-render, filesystem snapshots (content hash, mode, mtime, inode) around Save",
-         "For every tree the complete fault x entry-point matrix: formatter error, render error at node i, writer error on write k (reporting 0, half or all bytes written), and for Save: new / existing longer / existing empty file, directory target, missing parent, component is a file, name too long, a private full device, a second Save after the target was changed behind the File's back. Trees (real programs, every third damaged, and random compositions) are sampled.",
+         "For every tree the complete fault x entry-point matrix: formatter error, render error at node i, writer error on write k (reporting 0, half or all bytes written), and for Save: new / existing longer / existing empty file, directory target, missing parent, component is a file, name too long, a private full device, a second Save after the target was changed behind the File's back; for each of 35 list constructs an item whose rendering fails at the first, middle and last position. Trees (real programs, every third damaged, and random compositions) are sampled.",
          TB + " Running as root: an unwritable directory is realised by the other failing targets.", "5 C10"),
 }
 
